@@ -457,6 +457,19 @@ func (p *provider) createAllSingletonsWithContext(ctx context.Context) error {
 		}
 	}
 
+	// A cancellation that arrives while the last singleton is being created
+	// stops the build like one that arrives earlier: whether another node
+	// happens to follow in the order does not decide the outcome
+	select {
+	case <-ctx.Done():
+		return &BuildError{
+			Phase:   "singleton-creation",
+			Details: "build cancelled during singleton creation",
+			Cause:   ctx.Err(),
+		}
+	default:
+	}
+
 	return nil
 }
 
